@@ -55,6 +55,11 @@ HasOperation(i) == i # 3
 MilestoneOps(es) ==
   LET dones == SelectSeq(es, LAMBDA e : e[2] = "Done" /\ HasOperation(e[1]))
   IN [n \in 1..Len(dones) |-> Stages[dones[n][1]]]
+\* the reading in which Rego compilation is a stage like the others (the property says "one per completed stage";
+\* the package as pinned has no Operation for it): a run is accepted under either reading
+MilestoneOpsAll(es) ==
+  LET dones == SelectSeq(es, LAMBDA e : e[2] = "Done")
+  IN [n \in 1..Len(dones) |-> Stages[dones[n][1]]]
 
 \* what a call of entry e on (p, d) must return, and -- when nothing fails --
 \* the exact event sequence it produces on a fresh channel
